@@ -430,9 +430,15 @@ func GenAnteCase(seed uint64, idx int) AnteCase {
 		pool := map[string][]string{
 			// incl. prices whose product with the per-message gas (10000) has a fraction of a half or more: rounding or
 			// truncating per message instead of once per transaction then shows with two messages
-			"uusdc": {"1", "0.5", "2.333333333333333333", "0.000000000000000001", "7", "0.00045", "0.666666666666666667", "1.99999"},
-			"setl":  {"0.0001", "0.000000000000000001", "0.00000000000001"},
-			"utok":  {"3", "0.25", "0.000001", "0.00015", "0.99995"},
+			"uusdc": {"1", "0.5", "2.333333333333333333", "0.000000000000000001", "7", "0.00045", "0.666666666666666667", "1.99999", "0"},
+			"setl":  {"0.0001", "0.000000000000000001", "0.00000000000001", "0"},
+			"utok":  {"3", "0.25", "0.000001", "0.00015", "0.99995", "0"},
+		}
+		if r.Chance(8) {
+			// settlement transactions made free by governance: every configured price is zero
+			for d := range pool {
+				pool[d] = []string{"0"}
+			}
 		}
 		denoms := []string{"setl", "utok", "uusdc"} // DecCoins are kept sorted by denomination
 		for _, d := range denoms {
@@ -605,7 +611,9 @@ func runAnteCase(c AnteCase) (*Exec, *anteExec, AnteObs, string) {
 			for _, p := range c.Prices {
 				dcs = append(dcs, sdk.NewDecCoinFromDec(p[0], sdk.MustNewDecFromStr(p[1])))
 			}
-			sp.GasPrices = sdk.NewDecCoins(dcs...)
+			// as a parameter-change proposal writes them: the list as given (sorted by denomination), zero prices kept
+			// (sdk.NewDecCoins would drop them)
+			sp.GasPrices = sdk.DecCoins(dcs)
 		}
 		if c.Q != "" {
 			sp.OracleFeePercentage = sdk.MustNewDecFromStr(c.Q)
